@@ -65,6 +65,11 @@ META = {
                     "flavours (and finds the violations when the lock or the once-only dispatch is removed); recorded histories of the generated servers (by-value, RefMut, SharedMut spawn/no-spawn) "
                     "with local and remote clients are replayed by TLC against the model's target state: every value an execution reads, writes and returns must be the model's.",
             "note": "Bounds: 4 calls, queue 2 in the model; real code on single-threaded seeded schedules with H1 deferral, 2-4 clients x 2-4 calls. Trusted: TLC, harness tracer, logging inside the target object."},
+    "C18": {"technique": "TLA+ model of the I/O channel (IoChan.tla: clamped writes, pending chunk, shutdown verification / announcement, end-of-data verification; safety + termination under fairness) + TLC trace validation of write/read histories (IoTrace)",
+            "text": "TLC checks prefix, end-of-file-only-when-complete, over-long-write refusal, shutdown verification and reader termination for sized and unsized mode over all write/read partitions "
+                    "of a small stream (and finds the violations when end-of-data is not verified or writes are not clamped); recorded histories of real channels with either half moved to another "
+                    "endpoint are checked step by step: every read against the byte pattern, every result against the model's counters.",
+            "note": "Bounds: size 5, chunk 3 in the model; real code: 0..2400 bytes, chunk 16-256, receive buffer 64-4096. Trusted: TLC, harness tracer, in-place pattern comparison."},
     "C19": {"technique": "TLA+ model with fairness (Rtc.tla liveness: every non-abandoned call completes, hanging calls are dropped) + TLC trace validation of histories with hanging, non-cancellable, undecodable, unknown and oversized calls",
             "text": "TLC checks under weak fairness that an abandoned hanging call never wedges the serve loop and that non-cancellable executions are never dropped (and finds the wedge when the "
                     "cancellation race is removed); on the real code a call that never completes, a dropped non-cancellable execution, an unrelated call failing after an item-specific failure, "
